@@ -1284,7 +1284,7 @@ def translate(tu, ent, registry, sigs, lane=None, probe=False):
     for (sname, sargs, w, body_) in ex.stages:
         lines.append("@[gen_unfold] def %s %s : %s :=\n  %s" % (sname, " ".join("(%s : %s)" % (a_, lean_ty(aw)) for a_, aw in sargs), lean_ty(w), body_))
     rty = " × ".join(lean_ty(o[2].w) for o in outs)
-    attr = "" if (ent.get("lane") and piece is None) else "@[gen_unfold] "
+    attr = "" if ((ent.get("lane") or ent.get("opaque")) and piece is None) else "@[gen_unfold] "
     hdr = attr + "def %s %s : %s :=" % (lname, " ".join("(%s : %s)" % (a_, lean_ty(w)) for a_, w in sig), rty)
     body_ = []
     for (ln, sn, sa) in ex.lets:
@@ -1300,7 +1300,7 @@ def translate(tu, ent, registry, sigs, lane=None, probe=False):
     meta = {"lean": lname, "func": fname, "file": ent["file"], "flags": ent.get("flags", []), "piece": piece,
             "sig": sig, "outs": [(o[0], o[1], o[2].w) for o in outs],
             "stages": [(s_, a_, w) for (s_, a_, w, _) in ex.stages],
-            "lets": ex.lets, "leak": ex.leak, "io": ex.io, "junk_reads": junk_reads,
+            "lets": ex.lets, "leak": ex.leak, "io": ex.io, "junk_reads": junk_reads, "out_exprs": [render(o[2]) for o in outs],
             "consts": {k: v for k, v in ((pn, ps.get("const")) for pn, ps in pspec.items()) if v is not None}}
     text = "\n\n".join(lines) + "\n"
     if not probe:
